@@ -18,6 +18,9 @@ def main() -> int:
     if a.what == "setup":
         from .setup import setup
         return setup()
+    if a.what == "bindtest":
+        from .bindtest import bindtest
+        return bindtest()
     if a.what == "selftest":
         from .selftest import selftest
         return selftest(a.rest)
